@@ -31,6 +31,8 @@ func runC16(c *Ctx) {
 			return ok && len(as.Lhs) == 1 && selField(f.Info, as.Lhs[0]) == completed
 		}
 		already := f.CondEdges(func(e ast.Expr) bool { return selField(f.Info, e) == completed }, true)
+		notYet := f.CondEdges(func(e ast.Expr) bool { return selField(f.Info, e) == completed }, false)
+		c.guardedBy(f, notYet, set, "complete/set-only-if-unset", "'completed' is set only over the edge on which it was found unset", c.P.Pos(fn.Decl.Pos()))
 		w := f.AfterEdgesMayReach(already, nil, nil, set)
 		c.Check(w == nil && len(already) > 0 && len(f.Find(set)) == 1, "complete/test-and-set", "complete() sets 'completed' only when it found it unset, and reports the loser", c.P.Pos(fn.Decl.Pos()), f.describe(w))
 		// no unlock between the test and the set
